@@ -464,7 +464,8 @@ def gen_subroutine(rng: random.Random, name: str, callable_subs=()):
         if c < 0.9 and callable_subs:
             f, fsig = rng.choice(callable_subs)
             return f"{f}({', '.join(e(d - 1) for _ in fsig)})"
-        return f"(({e(d - 1)} {rng.choice(CMPS)} {e(d - 1)}) ? {e(d - 1)} : {e(d - 1)})"
+        # the condition always names a parameter: constant conditions are folded (listed findings of C09 are masked here)
+        return f"(({rng.choice(pn)} {rng.choice(CMPS)} {e(d - 1)}) ? {e(d - 1)} : {e(d - 1)})"
 
     locs = []
     stmts = []
